@@ -9,6 +9,10 @@ ids = [json.loads(l)['id'] for l in (V / 'properties.jsonl').read_text().splitli
 TECH = 'contract-based deductive verification: own VC generator (pyvc) over the real .py/.pyx source, sidecar contracts, z3/cvc5'
 
 CLAIMED = {
+	'C01': dict(
+		text='find_kmers (both search loops and the upper-casing loop, as a generator with ghost yield sequence), KmerMatch.kmer_index/kmer_indices, accumulate_kmers, both accumulators, default_accumulator, calc_signature, KmerSpec.__init__, index_dtype and nkmers are verified against a declarative spec (set of indices of valid k-mers following a prefix occurrence on either strand of the upper-cased text) for all sequences, all k <= 32, all non-empty ACGT prefixes, the four input types and all accumulator choices; result sorted, duplicate free and of the smallest unsigned dtype. Bridging lemmas (case folding, revcomp of the prefix) are separate obligations. A bounded run of the real calc_signature against a brute-force enumeration accompanies it and supplies replayable inputs.',
+		note='Trusted: C07 base for the compiled encoders, library contracts for bytes.find/upper/slicing and numpy zeros/flatnonzero/astype/fromiter/sort, generators as yielded sequences. Bounds in requires: k <= 32, lengths < 2^31.',
+		design='3/C01'),
 	'C07': dict(
 		text='Every obligation generated from the current text of kmers.pyx / kmers.py / seq.py (loop invariants for the four kernels, C-integer range and in-bounds obligations, exception protocol of the wrappers) plus inductive lemmas for the two inverses, the revcomp involution and rc-index consistency is discharged by z3 for all k <= 32, all 256 byte values and all sequence lengths < 2^31. A bounded run of the compiled kernels against an independent executable spec accompanies it (never counted as proved).',
 		note='Trusted: Cython/gcc translation and that the pre-built .so corresponds to the .pyx (Cython is not installed, so the binary cannot be rebuilt); C integer model; library contracts for bytearray/bytes/str.encode. Termination by decreases clauses.',
